@@ -20,6 +20,9 @@ produced it and is not expanded further (standard for explicit-state checkers; e
 only through an error state is the same defect again).  So every signature names the event that broke
 the state: ``coords:<what>:<event>``.
 
+Units: ``histories`` (all 24 initial states, depth 3 quick / 4 thorough) and ``histories_deep`` (four of the
+initial states, one level deeper: depth 4 quick / 5 thorough).
+
 The origin of the coordinates after ``crop`` is path dependent in the code (sliced if cached,
 re-centred if regenerated later); the property does not constrain it and neither does this oracle.
 """
@@ -559,7 +562,7 @@ def check(st, init, history, R):
     gm = R.call(putil.mean, data, sig='stats:mean:exception')
     R.expect_close(gm, m, tol, 'stats:mean', f'mean of {v.size} valid / {data.size} samples')
     if all(isinstance(g, (float, np.floating)) and np.isfinite(g) for g in list(got.values()) + [gm]):
-        R.expect(abs(got['rms'] ** 2 - (got['std'] ** 2 + gm ** 2)) <= 64 * EPS * max(sc * sc, 1e-300), 'stats:rms2=std2+mean2',
+        R.expect(abs(got['rms'] ** 2 - (got['std'] ** 2 + gm ** 2)) <= 512 * EPS * max(sc * sc, 1e-300), 'stats:rms2=std2+mean2',
                  f"rms^2 = {got['rms'] ** 2} != std^2 + mean^2 = {got['std'] ** 2 + gm ** 2}")
         R.expect(got['Sa'] <= got['std'] + tol and got['std'] <= got['pv'] + tol, 'stats:Sa<=std<=PV',
                  f"Sa={got['Sa']} std={got['std']} PV={got['pv']}")
@@ -584,9 +587,9 @@ def plan(tier, seed):
     rs = lambda: reset_executors(64)   # noqa
     units = [HistoryUnit('histories', inits, fresh, make_events(tier), apply, check, canon, depth, rule,
                          summary=summary, step_check=step_check, reset=rs)]
-    if tier == 'thorough':
-        units.append(HistoryUnit('histories_deep', deep, fresh, make_events(tier), apply, check, canon, 5,
-                                 'the same exploration to depth 5 from four of the initial states (one per NaN pattern, all three shapes, '
-                                 'calibrated and uncalibrated): ' + ', '.join(f"{d['shape'][0]}x{d['shape'][1]}/{d['nan']}/dx={d['dx']}" for d in deep),
-                                 summary=summary, step_check=step_check, reset=rs))
+    ddepth = depth + 1
+    units.append(HistoryUnit('histories_deep', deep, fresh, make_events(tier), apply, check, canon, ddepth,
+                             f'the same exploration to depth {ddepth} from four of the initial states (one per NaN pattern, all three shapes, '
+                             'calibrated and uncalibrated): ' + ', '.join(f"{d['shape'][0]}x{d['shape'][1]}/{d['nan']}/dx={d['dx']}" for d in deep),
+                             summary=summary, step_check=step_check, reset=rs))
     return units
